@@ -395,6 +395,42 @@ func runC17(c *h.Ctx) {
 		}
 		populate(root, "")
 		populate(sub, "Sub")
+		// decoys: the key of a declared source also appears in a container the field does NOT name (the query
+		// string for form/cookie/path/header keys, a header for query keys); a source kind reads its own container only
+		declared := map[string]bool{}
+		for _, hf := range append(append([]hmField{}, root...), sub...) {
+			for _, s := range hf.srcs {
+				declared[c17Key(s.kind, s.key)] = true
+			}
+		}
+		for _, hf := range append(append([]hmField{}, root...), sub...) {
+			for _, s := range hf.srcs {
+				if s.key == "" || s.kind == "body" || !cs.R.Chance(25) {
+					continue
+				}
+				dk := "query"
+				if s.kind == "query" {
+					dk = "header"
+				}
+				if declared[c17Key(dk, s.key)] {
+					continue
+				}
+				v := c17Val(cs.R, hf.f.T, dk, o.NoBase64Binary)
+				txt := c17Text(cs.R, v, hf.f.T, o.NoBase64Binary)
+				if txt == "" {
+					continue
+				}
+				if dk == "query" {
+					if rq.query.Get(s.key) == "" {
+						rq.query.Set(s.key, txt)
+						cs.Cover("decoy_value_in_undeclared_container")
+					}
+				} else if _, ok := rq.headers[s.key]; !ok && stdhttp.CanonicalHeaderKey(s.key) == s.key {
+					rq.headers[s.key] = txt
+					cs.Cover("decoy_value_in_undeclared_container")
+				}
+			}
+		}
 		// values filed under a field's own name: ignored unless the traceback option is on
 		for _, hf := range append(append([]hmField{}, root...), sub...) {
 			if !cs.R.Chance(25) {
